@@ -120,8 +120,8 @@ def install_clock():
 # --------------------------------------------------------------------------
 # random tie-breaks
 # --------------------------------------------------------------------------
-class OutOfChoices(Exception):
-    pass
+class OutOfChoices(BaseException):
+    """BaseException on purpose: the code under test catches Exception and would turn a harness budget problem into a flow failure."""
 
 
 class Choices:
